@@ -159,7 +159,7 @@ Section NoUb.
              destruct (abr_inv T sort sort_perm th_pop s3 (lits_of s3 c) I3 eq_refl Hdl Hf3 Hent Hex) as (I5 & _).
              pose proof (abr_ubs s3 (lits_of s3 c) I3 eq_refl Hdl Hf3 Hent Hex) as U5.
              rewrite (IH _ _ _ I5 E), U5. exact U2.
-        * pose proof (thp_ok s2 p I2 Hp2) as Hok.
+        * pose proof (thp_ok s2 p I2 Hp2 Hpl2) as Hok.
           pose proof (apply_theory_ubs s2 _ Hok) as U3.
           destruct (apply_theory sort s2 (th_propagate (thst s2) (assigns s2) (decision_level s2) p)) as [s3 cf] eqn:Ea. simpl in U3.
           destruct (apply_theory_inv T sort sort_perm s2 _ s3 cf I2 Hok Ea) as (I3 & T3 & Hcf & _).
